@@ -505,11 +505,11 @@ def main(tier):
     rej = sum(x[2] for x in res)
     over = sum(x[3] for x in res)
     found = {}
-    for *_, f in res:
+    for task, (*_, f) in zip(tasks, res):
         for key, v in f.items():
-            found.setdefault(key, v)
+            found.setdefault(key, dict(v, task=list(task)))
     for key, f in sorted(found.items()):
-        r.violation(key, f"{f['clause']} [base={f['base']} location={f['location']!r} via {f['entry']}]: {f['detail']}", {"engine": "E6", "input": {"base": f["base"], "location": f["location"], "entry": f["entry"]}, "oracle": f["clause"], "detail": f["detail"]})
+        r.violation(key, f"{f['clause']} [base={f['base']} location={f['location']!r} via {f['entry']}]: {f['detail']}", {"engine": "E6", "task": f["task"], "input": {"base": f["base"], "location": f["location"], "entry": f["entry"]}, "oracle": f["clause"], "detail": f["detail"]})
     r.sample({"base": "base/../base", "location": "dir_out/secret.bin", "entry": "tofile(BytesIO)"})
     r.sample({"base": "<ir.load('m.onnx') from inside the directory>", "location": "../outside/secret.bin", "entry": "numpy"})
     r.coverage.update({
@@ -525,4 +525,10 @@ def main(tier):
 
 
 def replay(obj):
-    return True, "re-run ./check C10"
+    """Re-execute, in this process, the enumeration task the finding came from and look for the same finding key."""
+    task = obj.get("task")
+    if not task:
+        return True, "replay file without its task: re-run ./check C10"
+    n, acc, rej, over, found = _work(tuple(task))
+    hit = found.get(obj["finding_key"])
+    return (hit is None), (hit or f"not reproduced among {n} cases")
